@@ -83,7 +83,8 @@ Definition cnn_remove_layer (c : cnn_cfg) (a : cnn_arch) (r1 r2 : Z) : step_out 
         "remove_layer", [])
   else cnn_add_channel c a None None r1 r2.
 
-Definition cnn_change_kernel (st : cnn_static) (c : cnn_cfg) (a : cnn_arch) (ks hl : option Z) (r1 r2 : Z) : step_out cnn_arch :=
+(* change_kernel as it was before fix 0a5e775 (pinned): no check that the later layers still fit *)
+Definition cnn_change_kernel_prefix (st : cnn_static) (c : cnn_cfg) (a : cnn_arch) (ks hl : option Z) (r1 r2 : Z) : step_out cnn_arch :=
   if 1 <? zlen (channels a) then
     let '(i, r) := match hl with Some l => (l, r1) | None => (pick 1 (Z.min 4 (zlen (channels a))) r1, r2) end in
     let mk := znth (max_kernels (cs_h st) (cs_w st) (kernels a) (strides a)) i in
@@ -91,13 +92,35 @@ Definition cnn_change_kernel (st : cnn_static) (c : cnn_cfg) (a : cnn_arch) (ks 
     ({| channels := channels a; kernels := updz (kernels a) i (fun _ => k); strides := strides a |}, "change_kernel", [i; k])
   else cnn_add_layer st c a r1 r2.
 
-Definition cnn_step (st : cnn_static) (c : cnn_cfg) (a : cnn_arch) (m : cnn_meth) (r1 r2 : Z) : step_out cnn_arch :=
+(* EvolvableCNN._kernels_fit: walking over zip(kernel sizes, strides), no feature map is smaller than the kernel applied to it *)
+Fixpoint kernels_fit (h w : Z) (ks ss : list Z) : bool :=
+  match ks, ss with
+  | k :: ks', s :: ss' => (k <=? h) && (k <=? w) && kernels_fit (conv_out h k s) (conv_out w k s) ks' ss'
+  | _, _ => true
+  end.
+
+(* change_kernel (current tree, fix 0a5e775): the kernel is changed as before; HARD LIMIT: when the kernels no longer fit, the
+   old sizes are restored and the old kernel of that layer is reported *)
+Definition cnn_change_kernel (st : cnn_static) (c : cnn_cfg) (a : cnn_arch) (ks hl : option Z) (r1 r2 : Z) : step_out cnn_arch :=
+  if 1 <? zlen (channels a) then
+    let '(a', nm, rt) := cnn_change_kernel_prefix st c a ks hl r1 r2 in
+    if kernels_fit (cs_h st) (cs_w st) (kernels a') (strides a') then (a', nm, rt)
+    else (a, nm, [nth 0 rt 0; znth (kernels a) (nth 0 rt 0)])
+  else cnn_add_layer st c a r1 r2.
+
+Definition cnn_step_prefix (st : cnn_static) (c : cnn_cfg) (a : cnn_arch) (m : cnn_meth) (r1 r2 : Z) : step_out cnn_arch :=
   match m with
   | CAddLayer => cnn_add_layer st c a r1 r2
   | CRemoveLayer => cnn_remove_layer c a r1 r2
-  | CChangeKernel ks hl => cnn_change_kernel st c a ks hl r1 r2
+  | CChangeKernel ks hl => cnn_change_kernel_prefix st c a ks hl r1 r2
   | CAddChannel hl nn => cnn_add_channel c a hl nn r1 r2
   | CRemoveChannel hl nn => cnn_remove_channel c a hl nn r1 r2
+  end.
+
+Definition cnn_step (st : cnn_static) (c : cnn_cfg) (a : cnn_arch) (m : cnn_meth) (r1 r2 : Z) : step_out cnn_arch :=
+  match m with
+  | CChangeKernel ks hl => cnn_change_kernel st c a ks hl r1 r2
+  | _ => cnn_step_prefix st c a m r1 r2
   end.
 
 (* parameters of the torch module built by create_cnn + the final linear layer *)
